@@ -21,9 +21,9 @@ ALG_ORDER = ["sha256_256", "sha256_192", "sha256_128", "shake256_256", "shake256
 
 PROPS = {
     "C01": {"level": "exploration", "stages": ["native", "constrained", "fvbuild"], "thorough_extra": ["dbgassert"]},
-    "C02": {"level": "exploration", "stages": ["native", "nohooks", "fvbuild"], "thorough_extra": ["fuzz", "dbgassert"]},
+    "C02": {"level": "exploration", "stages": ["native", "nohooks", "fvbuild", "constrained"], "thorough_extra": ["fuzz", "dbgassert"]},
     "C03": {"level": "exploration", "stages": ["native", "fvbuild"]},
-    "C04": {"level": "fault_enumeration", "stages": ["native", "fvbuild"]},
+    "C04": {"level": "fault_enumeration", "stages": ["native", "fvbuild", "constrained"]},
     "C05": {"level": "exploration", "stages": ["native"]},
     "C06": {"level": "exploration", "stages": ["native", "nohooks", "constrained", "miri"], "thorough_extra": ["fuzz", "dbgassert"]},
     "C07": {"level": "exploration", "stages": ["native", "fvbuild"]},
@@ -169,6 +169,16 @@ class Run:
             ("L2-h5-10-w4-4", 2, "5, 10", "4, 4", True),
             ("L3-h10-5-5-w8-4-2", 3, "10, 5, 5", "8, 4, 2", True),
             ("L2-h10-5", 2, "10, 5", "1, 1", False),
+        ],
+        # verification in builds whose limits differ per level
+        "C02": [
+            ("L3-h10-5-5-w8-4-2", 3, "10, 5, 5", "8, 4, 2", True),
+            ("L2-h5-10-w4-4", 2, "5, 10", "4, 4", False),
+        ],
+        # the callback protocol where a key can be beyond one level's limit only
+        "C04": [
+            ("L2-h10-5", 2, "10, 5", "1, 1", True),
+            ("L3-h10-5-5-w8-4-2", 3, "10, 5, 5", "8, 4, 2", False),
         ],
         # keys have the same bytes in every build
         "C08": [
